@@ -76,6 +76,7 @@ struct sk_proc {
   struct sk_sig sigs[16]; int nsigs;
   int exec_fds_nonblock;   /* bit i set: fd i (0..2) refers to an OFD with O_NONBLOCK at exec */
   int forkmode_child;      /* returned 0 from reproc_start (fork mode) */
+  int fork_ret;            /* what reproc_start returned in that child */
   int stdin_read;          /* bytes consumed from stdin by env steps */
   int stdin_eof;           /* saw EOF on stdin */
   int stdin_bad;           /* pattern mismatch */
